@@ -1,4 +1,5 @@
 import MesonModel.Fmt.Lemmas
+import MesonModel.Fmt.LayoutLemmas
 import MesonModel.Generated.FmtTables
 /-
 C16 — `meson format` preserves meaning and comments and is idempotent.
@@ -201,5 +202,76 @@ theorem sameProgram_refl (s : Bool) (t : Tree) : sameProgram s t t = true := by
 theorem sameProgram_ignores_whitespace (s : Bool) (f : List Char → List Char) (t : Tree) :
     sameProgram s t (mapWs f t) = true := by
   simp [sameProgram, erase_mapWs]
+
+/-! ### argument-list layout (`MesonModel/Fmt/Layout.lean`)
+
+The layout decision of the three formatter passes on abstract argument lists: `files([...])` flattening,
+`sort_files`, the multi-line detector (comment, triple-quoted string that stays, trailing comma except the one
+`no_single_comma_function` removes, `kwargs_force_multiline`), the trailing-comma rule.  Quantified over every
+node (calls, method calls, arrays, dicts, nested to any depth) and every configuration; the tie to the real
+formatter is the `layout` correspondence stream of `harness/c16.py` (model of the abstracted input = abstraction of
+the real output, layout included).  Line-length splitting is outside this model. -/
+
+open MesonModel.Fmt.Layout in
+/-- **idempotence of the layout**: formatting a formatted argument list changes nothing — items, order, trailing
+commas — for every node and every configuration -/
+theorem layout_idempotent (cfg : Cfg) (n : Node) : fmt cfg (fmt cfg n) = fmt cfg n :=
+  fmt_idempotent cfg n
+
+open MesonModel.Fmt.Layout in
+/-- **the layout decided is the layout read back**: `is_multiline` as `TrimWhitespaces` decides it in the run that
+formats the text (detector on the not yet formatted items of the flattened list) is what the detector says on the
+formatted list, i.e. what a second run decides.  This is the statement that failed before the repairs e587c4a /
+f78386e (`g(files([x,]))` with `no_single_comma_function`). -/
+theorem layout_decided_is_read_back (cfg : Cfg) (c : Cont) (co : Bool) (items : List Node) (tr ci : Bool) :
+    decided cfg c co items tr ci = multiline cfg (fmt cfg (.coll c items tr ci co)) := by
+  simp only [multiline, fmt]; exact decided_eq_readback cfg c co items tr ci
+
+open MesonModel.Fmt.Layout in
+/-- a second run therefore lays every list out as the first did -/
+theorem layout_second_run_same_layout (cfg : Cfg) (c : Cont) (co : Bool) (items : List Node) (tr ci : Bool) :
+    multiline cfg (fmt cfg (fmt cfg (.coll c items tr ci co))) = decided cfg c co items tr ci := by
+  rw [layout_idempotent, layout_decided_is_read_back]
+
+open MesonModel.Fmt.Layout in
+/-- **the argument sequence is preserved up to the documented rewrites**: the leaves of the formatted node are a
+permutation of the leaves of the node (flattening keeps them all; only `sort_files` moves any) -/
+theorem layout_preserves_arguments (cfg : Cfg) (n : Node) : (leaves (fmt cfg n)).Perm (leaves n) :=
+  ((leaves_fmt_both cfg).1 n).1
+
+open MesonModel.Fmt.Layout in
+/-- … and with `sort_files` off it is the same sequence -/
+theorem layout_preserves_argument_order (cfg : Cfg) (h : cfg.sortFiles = false) (n : Node) :
+    leaves (fmt cfg n) = leaves n :=
+  ((leaves_fmt_both cfg).1 n).2 h
+
+open MesonModel.Fmt.Layout in
+/-- formatting creates no reason for a multi-line layout of the enclosing list, and with
+`no_single_comma_function` loses none -/
+theorem layout_detector_stable (cfg : Cfg) (h : cfg.noSingle = true) (n : Node) :
+    det cfg false (fmt cfg n) = det cfg false n := by
+  cases hd : det cfg false n with
+  | true => exact detB cfg n h hd
+  | false =>
+    cases hf : det cfg false (fmt cfg n) with
+    | true => rw [detA cfg n hf] at hd; exact absurd hd (by simp)
+    | false => rfl
+
+/-- non-vacuity: `g(files([x,]))` with `no_single_comma_function` becomes `g(files(x))` on one line; without the
+option the dropped comma makes the call multi-line and the added trailing comma keeps it so -/
+example : Layout.fmt ⟨false, true, false, true⟩
+    (.coll .func [.coll .files [.coll .array [.leaf 0] true false false] false false false] false false false) =
+    .coll .func [.coll .files [.leaf 0] false false false] false false false := by
+  simp [Layout.fmt, Layout.fmtArgs, Layout.fmtL, Layout.build, Layout.det, Layout.detL, Layout.continues, Layout.decided,
+    Layout.trailingAfter, Layout.sortIf, Layout.hasCmtL, Layout.hasCmt, Layout.hasKw, Layout.isKw, Layout.isFn]
+example : Layout.fmt ⟨false, false, false, true⟩
+    (.coll .func [.coll .files [.coll .array [.leaf 0, .leaf 1] false false false] true false false] false false false) =
+    .coll .func [.coll .files [.leaf 0, .leaf 1] false false false] true false false := by
+  simp [Layout.fmt, Layout.fmtArgs, Layout.fmtL, Layout.build, Layout.det, Layout.detL, Layout.continues, Layout.decided,
+    Layout.trailingAfter, Layout.sortIf, Layout.hasCmtL, Layout.hasCmt, Layout.hasKw, Layout.isKw, Layout.isFn]
+example : Layout.decided ⟨false, false, false, true⟩ .func false
+    [.coll .files [.coll .array [.leaf 0, .leaf 1] false false false] true false false] false false = true := by
+  simp [Layout.fmt, Layout.fmtArgs, Layout.fmtL, Layout.build, Layout.det, Layout.detL, Layout.continues, Layout.decided,
+    Layout.trailingAfter, Layout.sortIf, Layout.hasCmtL, Layout.hasCmt, Layout.hasKw, Layout.isKw, Layout.isFn]
 
 end MesonModel.Props.C16
